@@ -161,8 +161,50 @@ def run_corpus(ctx):
             ctx.violation('c19-skewness', f'skewness of {c} = {got!r} but the textbook value from its raw moments is {sk!r}', replay=rep)
 
 
+def history_case(ctx, k):
+    """query -> parameter update by EM -> query again: the second answer must be the moments of the CURRENT parameters"""
+    from deeprob.spn.learning.em import expectation_maximization
+    rs = np.random.RandomState(np_seed(ctx.sub_rng('hist', k)))
+    nv = int(rs.randint(1, 4))
+    scope = list(range(nv))
+    root = S.rand_spn(rs, scope, depth=int(rs.randint(1, 4)), kinds=(('cat',), ('bern', 'cat'), ('gauss', 'cat'))[k % 3], share=0.3, clt=False, same_categories={})
+    if not getattr(root, 'children', None):
+        return
+    assign_ids(root)
+    order0 = S.children_first(root)[0]
+    dom = S.domain_of(order0)
+    data = np.zeros((40, nv), dtype=np.float32)
+    for v in range(nv):
+        cont = [n for n in order0 if S.is_continuous(n) and n.scope[0] == v]
+        data[:, v] = rs.randn(40) if cont else rs.randint(dom[v], size=40)
+    ctx.case('history', nontrivial_key=('hist', k), sample=dict(kinds=S.describe(order0), steps='moment, EM x2, moment'))
+    ctx.count('history-cases')
+    for phase in range(2):
+        table, order, index, _ = S.export_net(root)
+        rep = dict(kind='c19', table=table_with_py(table, order), history='after EM' if phase else 'fresh')
+        for kord in (1, 2):
+            mi = np.asarray(M.moment(root, order=kord), dtype=np.float64)
+            if ctx.driver_ok:
+                moms = [fstr(leaf_raw_moment(n, kord)) if S.is_continuous(n) else '0/1' for n in order]
+                exact = [float(parse_q(t)) for t in ctx.get_driver().ask(dict(op='momentnet', nodes=table, root=index[id(root)], k=kord, moms=moms)).split()]
+                for v in range(nv):
+                    if abs(mi[v] - exact[v]) > 1e-5 + 2e-5 * abs(exact[v]):
+                        ctx.violation('c19-raw-moment-after-update', f'moment(order={kord})[{v}] = {mi[v]!r} but E[X_{v}^{kord}] under the current parameters = {exact[v]!r} '
+                                                                    f'({"after EM updates following an earlier query" if phase else "fresh model"})', replay=rep)
+                        return
+        if phase == 0:
+            try:
+                expectation_maximization(root, data, num_iter=2, batch_perc=0.5, step_size=0.7, random_init=False, random_state=int(rs.randint(1000)), verbose=False)
+            except Exception:
+                return
+
+
 def run(ctx):
     run_corpus(ctx)
+    for k in range(20 if ctx.tier == 'quick' else 300):
+        history_case(ctx, k)
+        if ctx.n_new() >= 3:
+            return
     n = 300 if ctx.tier == 'quick' else 5000
     for k in range(n):
         one_case(ctx, k)
